@@ -557,9 +557,55 @@ def lmtd_suite(ctx):
     ctx.suite("lmtd", cases=len(pairs), agree=agree, mismatch=0, property_false=bad, fragile_skipped=frag)
 
 
+def lmtd_ts_suite(ctx):
+    """The four-temperature entry point on counter-current end temperatures with positive end differences -- including an isothermal
+    (condensing / evaporating) side on either stream: it must not refuse and must return compute_LMTD_from_dts of the two end differences
+    (judged by the same lmtd_ok_b clauses)."""
+    _, hx = impl()
+    n = ctx.budget(120, 3000)
+    cases = [(150.0, 150.0, 30.0, 80.0), (150.0, 100.0, 60.0, 60.0), (120.0, 120.0, 80.0, 80.0), (200.0, 120.0, 100.0, 150.0), (75.0, 74.0, 20.0, 21.0)]
+    for _ in range(n):
+        tci = float(ctx.rng.randrange(10, 200, 5))
+        tco = tci + ctx.rng.choice([0.0, 0.0, 5.0, 20.0, 40.0])
+        d1, d2 = ctx.rng.choice([2.5, 10.0, 35.0, 120.0]), ctx.rng.choice([2.5, 10.0, 35.0, 120.0])     # hot-in minus cold-out, hot-out minus cold-in
+        thi, tho = tco + d1, tci + d2
+        if thi < tho:
+            continue
+        cases.append((thi, tho, tci, tco))
+    cf = CaseFile(ctx, "lmtd_ts", HDR)
+    obs = []
+    for thi, tho, tci, tco in cases:
+        a, b = thi - tco, tho - tci
+        try:
+            m, err = float(hx.compute_LMTD_from_ts(thi, tho, tci, tco)), None
+        except Exception as e:  # noqa: BLE001
+            m, err = None, f"{type(e).__name__}: {e}"
+        m2, _ = lmtd_call(a, b)
+        obs.append((m, err, m2))
+        if m is None or m2 is None or m != m:
+            cf.add("[V_PROP_FALSE; 7%Z]")
+        else:
+            cf.add(f"lmtd_ok_b eps9 {qlit(a)} {qlit(b)} {qlit(m)} {qlit(m2)}")
+    agree = bad = 0
+    for c, (m, err, m2), v in zip(cases, obs, cf.run()):
+        ctx.evaluations += 1
+        ctx.count("lmtd_ts_isothermal_side" if (c[0] == c[1] or c[2] == c[3]) else "lmtd_ts_gliding")
+        ctx.nontrivial_case(("lmtd_ts",) + c)
+        if v[0] == 0:
+            agree += 1
+            continue
+        bad += 1
+        if bad <= 2:
+            ctx.fail("lmtd-from-temperatures", f"compute_LMTD_from_ts{c}: " + ("refused or not finite although both end differences are positive"
+                     if v[1] == 7 else f"clause {v[1]} false (not the log-mean of the two end differences)"),
+                     input=dict(T_hot_in=c[0], T_hot_out=c[1], T_cold_in=c[2], T_cold_out=c[3]), impl_output=dict(lmtd=m, error=err, from_dts=m2),
+                     suite="lmtd_ts", predicate="returns compute_LMTD_from_dts(T_hot_in - T_cold_out, T_hot_out - T_cold_in)")
+    ctx.suite("lmtd_ts", cases=len(cases), agree=agree, mismatch=0, property_false=bad, fragile_skipped=0)
+
+
 def run(ctx):
     import time
-    for name, fn in (("dispatch", dispatch_suite), ("samples", samples_suite), ("sweep", sweep_suite), ("lmtd", lmtd_suite)):
+    for name, fn in (("dispatch", dispatch_suite), ("samples", samples_suite), ("sweep", sweep_suite), ("lmtd", lmtd_suite), ("lmtd_ts", lmtd_ts_suite)):
         t0 = time.time()
         try:
             fn(ctx)
